@@ -146,6 +146,7 @@ fn stress(seed: u64, j: usize, readers: usize, millis: u64, mode: u64) -> Outcom
     let snaps: Arc<Mutex<Vec<Snap>>> = Arc::new(Mutex::new(Vec::new()));
     let clears: Arc<Mutex<Vec<(u64, u64)>>> = Arc::new(Mutex::new(Vec::new()));
     let t_start = clock::real_now_ns();
+    let panics: Arc<Mutex<Vec<crate::framework::Panic>>> = Arc::new(Mutex::new(Vec::new()));
     std::thread::scope(|sc| {
         // the tracer: virtual time, runs until the world is told to stop (a fatal fault)
         let (w2, tr2, rounds2, stop2) = (world.clone(), tracer.clone(), rounds.clone(), stop.clone());
@@ -166,18 +167,29 @@ fn stress(seed: u64, j: usize, readers: usize, millis: u64, mode: u64) -> Outcom
             drop(guard);
         });
         for _ in 0..readers {
-            let (tr, snaps2, stop2) = (tracer.clone(), snaps.clone(), stop.clone());
+            let (tr, snaps2, stop2, panics2) = (tracer.clone(), snaps.clone(), stop.clone(), panics.clone());
             sc.spawn(move || {
                 let mut local = Vec::new();
                 while !stop2.load(Ordering::Relaxed) {
                     let s0 = stamp();
-                    let s = tr.snapshot();
-                    let s1 = stamp();
-                    // an error recorded by the terminating fault is not part of any round: skip
-                    if s.error().is_some() {
-                        continue;
+                    // (a snapshot torn by a race may make clone or the getters panic)
+                    let got = crate::framework::guarded(|| {
+                        let s = tr.snapshot();
+                        let s1 = stamp();
+                        // an error recorded by the terminating fault is not part of any round: skip
+                        if s.error().is_some() {
+                            return None;
+                        }
+                        Some(Snap { s0, s1, n: s.round_count(State::default_flow_id()), b: s.round(State::default_flow_id()), digest: digest(&s) })
+                    });
+                    match got {
+                        Ok(Some(snap)) => local.push(snap),
+                        Ok(None) => continue,
+                        Err(p) => {
+                            panics2.lock().unwrap().push(p);
+                            break;
+                        }
                     }
-                    local.push(Snap { s0, s1, n: s.round_count(State::default_flow_id()), b: s.round(State::default_flow_id()), digest: digest(&s) });
                     if local.len() % 64 == 0 {
                         std::thread::yield_now();
                     }
@@ -202,6 +214,9 @@ fn stress(seed: u64, j: usize, readers: usize, millis: u64, mode: u64) -> Outcom
         stop.store(true, Ordering::Relaxed);
     });
     trippy_core::verif::set_failpoint(None);
+    for p in panics.lock().unwrap().iter() {
+        o.violate("snapshot_is_whole_consecutive_rounds", format!("{site}|panic|{}", p.site()), format!("taking or reading a snapshot panicked at {}:{}: {}", p.file, p.line, p.message), replay.clone());
+    }
     let wall = clock::real_now_ns() - t_start;
     let rounds = rounds.lock().unwrap().clone();
     let snaps = std::mem::take(&mut *snaps.lock().unwrap());
